@@ -260,6 +260,13 @@ theorem c13_header_roundtrip (hd : Header) (fmt : Format) (payload : Bytes)
         hd.offsetToSurface⟩, payload) ∧ (encode hd payload).drop 80 = payload :=
   ⟨readHeader_encode hd hwf _ (ofU32_of_formatOfCode _ _ hfmt) payload, drop_encode hd hwf payload⟩
 
+/-- Every byte string of at least 80 bytes is `encode hd payload` for some well-formed header: the
+theorems above, stated on encoder outputs, therefore speak about **every** file whose header the
+code can read (shorter inputs make `from_existing` return `None`; they are C18's). -/
+theorem c13_every_file_is_encoded (buffer : Bytes) (h : 80 ≤ buffer.length) :
+    ∃ hd payload, hd.WF ∧ buffer = encode hd payload :=
+  exists_encode buffer h
+
 /-- The conventions fixed in `Spec/Bcn.lean` lie inside the latitude DESIGN §6.13 allows: bit
 replication is within < 1 of the exact `v·255/31` resp. `v·255/63`. -/
 theorem c13_expand_close :
